@@ -703,7 +703,17 @@ pub fn generate(p: &GenParams, seed: u64) -> Case {
         if prague && i < p.pre_delegated {
             // in the refunder families half of the delegations point at the refunder: a delegated
             // sender then bounces received value straight back to whoever paid it
-            let target = if p.refunder_contract && r.chance(1, 2) { layout.con(1) } else { layout.con(r.below(n_con)) };
+            // ... and a third at the random value-moving contract 0, so that one transaction can
+            // debit several delegated accounts for real
+            let target = if p.refunder_contract {
+                match r.below(20) {
+                    0..=6 => layout.con(1),
+                    7..=13 => layout.con(0),
+                    _ => layout.con(r.below(n_con)),
+                }
+            } else {
+                layout.con(r.below(n_con))
+            };
             seed_acc.code = Some(delegation_code(target));
             // delegated EOAs may carry storage of their own
             if r.chance(1, 2) {
